@@ -177,6 +177,27 @@ def edge_facts(fn, view_info, stack=(), interproc=True):
             good, bad = decisive_edges(fn, c, _OK, _ERR)
             for e_ in good:
                 out.setdefault(e_, []).extend(tr)
+    # std contract: `<[u8; N]>::try_from(&[u8])` / `<&[u8; N]>::try_from(&[u8])` (and try_into) is Ok
+    # exactly when the slice has N elements
+    for c in fn.calls():
+        if c.path not in ("std::convert::TryFrom::try_from", "std::convert::TryInto::try_into") or len(c.args) != 1 or c.dest["p"]:
+            continue
+        dty = fn.locals[c.dest["l"]].get("t", "")
+        import re as _re
+        m = _re.match(r"^std::result::Result<&?(?:'\w+ )?(?:mut )?\[u8; (\w+)\], std::array::TryFromSliceError>$", dty)
+        a0 = c.args[0]
+        if not m or a0.get("k") not in ("copy", "move"):
+            continue
+        aty = fn.locals[a0["l"]].get("t", "").replace("'_ ", "")
+        if not _re.match(r"^&(?:'\w+ )?(?:mut )?\[u8\]$", aty):
+            continue
+        root, narrowed = view_info(fn, a0["l"])
+        lt = ("len", root) if not narrowed else ("len*", a0["l"])
+        n = int(m.group(1)) if m.group(1).isdigit() else ("constparam", m.group(1))
+        from .expr import decisive_edges as _de
+        good, bad = _de(fn, c, _OK, _ERR)
+        for e_ in good:
+            out.setdefault(e_, []).append(("Eq", lt, n))
     for b in range(fn.n):
         t = fn.blocks[b]["t"]
         if t["k"] != "switch":
